@@ -16,21 +16,21 @@ import (
 )
 
 type c06Query struct {
-	At      int    `json:"at"`       // runs right after op number At (clamped to the last op)
-	Idx     string `json:"idx,omitempty"` // queried index if it exists at that moment, else:
-	IdxPick int    `json:"idx_pick"`      // the IdxPick-th non-empty index (by name, modulo their number; any index if all are empty)
-	RootPick int   `json:"root_pick"`     // scope root = the RootPick-th live id of the index (-1: Scope.Root as written)
-	VecKind string `json:"vec_kind"` // grid | copy (exact copy of the stored vector of the Pick-th live id) | near (copy + offset) | zero | none (nil vector, text only)
-	Vec     []float32 `json:"vec"`   // 8 raw components; the first dim are used (grid), or added scaled to the copy (near)
-	Pick    int    `json:"pick"`
-	KPick   int    `json:"k_pick"` // k = 1 + KPick mod (live+3)
-	Ef      string `json:"ef"`     // "0" | "1" | "k" | "200"
-	Filter  *c06Filter `json:"filter,omitempty"`
-	Scope   *c06ScopeQ `json:"scope,omitempty"`
-	Text    string `json:"text,omitempty"`     // text query ("" = none)
-	TextVia string `json:"text_via,omitempty"` // param (explicitTextQuery) | contains (CONTAINS(content,'..') inside the filter)
-	Alpha   float64 `json:"alpha"`
-	Rels    []string `json:"include_relations,omitempty"` // VSearchGraph traversal paths (exercised, not asserted)
+	At       int        `json:"at"`            // runs right after op number At (clamped to the last op)
+	Idx      string     `json:"idx,omitempty"` // queried index if it exists at that moment, else:
+	IdxPick  int        `json:"idx_pick"`      // the IdxPick-th non-empty index (by name, modulo their number; any index if all are empty)
+	RootPick int        `json:"root_pick"`     // scope root = the RootPick-th live id of the index (-1: Scope.Root as written)
+	VecKind  string     `json:"vec_kind"`      // grid | copy (exact copy of the stored vector of the Pick-th live id) | near (copy + offset) | zero | none (nil vector, text only)
+	Vec      []float32  `json:"vec"`           // 8 raw components; the first dim are used (grid), or added scaled to the copy (near)
+	Pick     int        `json:"pick"`
+	KPick    int        `json:"k_pick"` // k = 1 + KPick mod (live+3)
+	Ef       string     `json:"ef"`     // "0" | "1" | "k" | "200"
+	Filter   *c06Filter `json:"filter,omitempty"`
+	Scope    *c06ScopeQ `json:"scope,omitempty"`
+	Text     string     `json:"text,omitempty"`     // text query ("" = none)
+	TextVia  string     `json:"text_via,omitempty"` // param (explicitTextQuery) | contains (CONTAINS(content,'..') inside the filter)
+	Alpha    float64    `json:"alpha"`
+	Rels     []string   `json:"include_relations,omitempty"` // VSearchGraph traversal paths (exercised, not asserted)
 }
 
 type c06Case struct {
